@@ -37,6 +37,7 @@ def main():
         rep = mod.run(a.tier, **kw)
         # every rule finds "the struct called X" by its short name: two crate types with one name make that lookup ambiguous
         import ir as _ir
+        from ir import short as ir_short
         F0 = _ir.load("default", a.repo, a.tag) if a.repo else _ir.load("default")
         seen_names = {}
         for adt in F0.d["adts"]:
@@ -49,6 +50,33 @@ def main():
                 rep.violation("%s:ambiguous-name:%s" % (prop, nm), "NAM", "the crate defines %d types called %s (%s): which one a rule means is not decided by its name" % (len(paths), nm, ", ".join(sorted(paths))))
             else:
                 rep.rules["NAM"].ok(nm)
+        # ... the same for traits (rules ask for "the Next impl of X") and for functions: two block-local `fn blend` share one
+        # definition path, and everything keyed by path (bodies, call graph, coverage) would silently use the first
+        tr_names = {}
+        for tr in F0.d.get("traits", []):
+            tr_names.setdefault(ir_short(tr["path"]), set()).add(tr["path"])
+        for nm, paths in sorted(tr_names.items()):
+            if len(paths) > 1:
+                rep.violation("%s:ambiguous-name:trait %s" % (prop, nm), "NAM", "the crate defines %d traits called %s (%s)" % (len(paths), nm, ", ".join(sorted(paths))))
+        seen_paths, seen_labels = {}, {}
+        for f in F0.fns:
+            seen_paths[f.path] = seen_paths.get(f.path, 0) + 1
+            if not f.derived:
+                seen_labels[f.label] = seen_labels.get(f.label, 0) + 1
+        for pth, k_ in sorted(seen_paths.items()):
+            if k_ > 1:
+                rep.violation("%s:ambiguous-name:fn %s" % (prop, pth), "NAM", "%d functions share the definition path %s (block-local items of the same name): the analysis cannot tell them apart" % (k_, pth))
+        for lab, k_ in sorted(seen_labels.items()):
+            if k_ > 1 and seen_paths.get(lab, 0) <= 1:
+                rep.violation("%s:ambiguous-name:fn %s" % (prop, lab), "NAM", "%d hand-written functions are labelled %s" % (k_, lab))
+        # enums are matched by variant index: explicit discriminants (`Seed = 1, Run = 0`) would swap the arms
+        for adt in F0.d["adts"]:
+            if any(v.get("discr_explicit") for v in adt.get("variants", [])):
+                rep.violation("%s:explicit-discriminant:%s" % (prop, adt["name"]), "NAM", "enum %s gives its variants explicit discriminants: the evaluator reads a discriminant as the variant index (UNRECOGNISED)" % adt["name"])
+        # drop glue is code no evaluation executes: a hand-written Drop impl can do anything at scope end
+        for imp in F0.impls:
+            if imp.get("of_trait") and ir_short(imp.get("trait") or "") == "Drop" and not (imp.get("derive") or {}):
+                rep.violation("%s:drop-glue:%s" % (prop, (imp.get("self_ty") or {}).get("s", "?")), "NAM", "hand-written `impl Drop for %s`: its body runs at scope ends the evaluator steps over (UNRECOGNISED)" % (imp.get("self_ty") or {}).get("s", "?"))
         if prop in EVALUATED or prop in ("C12", "C18"):
             import coverage
             import ir
